@@ -1,6 +1,7 @@
 // C15 - integer rules and conversions are exact or report overflow.
 // Oracle: numeral syntax by the documented grammar, value by 128-bit / digit-count comparison (no cutoff arithmetic).
 #include <tao/pegtl.hpp>
+#include <tao/pegtl/buffer_input.hpp>
 #include <tao/pegtl/contrib/integer.hpp>
 
 #include <limits>
@@ -14,10 +15,17 @@ using u128 = unsigned __int128;
 static vf::report R;
 static vf::rc_last* g_last = nullptr;
 
+// every fifth input (by hash, so that a replay takes the same path) reaches the rule through an incremental input that is fed one
+// byte per read instead of a memory input: values, consumption and errors must be the same
+static bool through_buffer( const std::string& s )
+{
+   return ( vf::fnv( s ) % 5 ) == 0;
+}
+
 static void failcase( const std::string& sig, const std::string& rule, const std::string& input, const std::string& detail )
 {
    const std::string k = vf::jobj().str( "rule", rule ).str( "input", input ).done();
-   const std::string d = rule + " on '" + vf::show( input ) + "': " + detail;
+   const std::string d = rule + " on '" + vf::show( input ) + "'" + ( through_buffer( input ) ? " (read through a buffer_input, one byte per read)" : "" ) + ": " + detail;
    if( g_last ) {
       g_last->set( sig, k, d );
    }
@@ -138,6 +146,20 @@ struct outcome
    std::string msg;
 };
 
+struct one_byte_reader
+{
+   const char* p;
+   const char* e;
+   std::size_t operator()( char* b, const std::size_t n )
+   {
+      if( p == e || n == 0 ) {
+         return 0;
+      }
+      *b = *p++;
+      return 1;
+   }
+};
+
 template< typename Rule, template< typename... > class Action, typename... St >
 static outcome run( const std::string& s, St&... st )
 {
@@ -145,9 +167,16 @@ static outcome run( const std::string& s, St&... st )
    char* buf = static_cast< char* >( std::malloc( s.size() ? s.size() : 1 ) );
    std::memcpy( buf, s.data(), s.size() );
    try {
-      p::memory_input< p::tracking_mode::eager, p::eol::lf_crlf, const char* > in( buf, buf + s.size(), "int" );
-      o.k = p::parse< Rule, Action, p::normal, p::apply_mode::action, p::rewind_mode::required >( in, st... ) ? 1 : 0;
-      o.consumed = in.byte();
+      if( through_buffer( s ) ) {
+         p::buffer_input< one_byte_reader, p::eol::lf_crlf, const char*, 4 > in( "int", s.size() + 8, one_byte_reader{ buf, buf + s.size() } );
+         o.k = p::parse< Rule, Action, p::normal, p::apply_mode::action, p::rewind_mode::required >( in, st... ) ? 1 : 0;
+         o.consumed = in.byte();
+      }
+      else {
+         p::memory_input< p::tracking_mode::eager, p::eol::lf_crlf, const char* > in( buf, buf + s.size(), "int" );
+         o.k = p::parse< Rule, Action, p::normal, p::apply_mode::action, p::rewind_mode::required >( in, st... ) ? 1 : 0;
+         o.consumed = in.byte();
+      }
    }
    catch( const p::parse_error& e ) {
       o.k = 2;
